@@ -17,13 +17,14 @@
 //! Typed values are reported as canonical serde_json (maps sorted), model values in the tagged
 //! encoding {"k": kind, "v": ..} / {"k":"rec","attrs":[{"n","v"}],"items":[{"key"?, "v"}]}.
 use bytes::{BufMut, BytesMut};
-use serde::de::DeserializeOwned;
 use serde::{Deserialize, Serialize};
 use serde_json::{json, Value as J};
 use std::collections::HashMap;
+use std::hash::Hash;
+use std::sync::Arc;
 use swimos_form::write::StructuralWritable;
 use swimos_form::{Form, Tag};
-use swimos_model::{Attr, Item, Text, Value};
+use swimos_model::{Attr, BigInt, BigUint, Blob, Item, Text, Timestamp, Value};
 use swimos_msgpack::{read_from_msg_pack, MsgPackInterpreter};
 use bytes::Buf;
 use swimos_form::read::RecognizerReadable;
@@ -46,7 +47,7 @@ fn val_to_json(v: &Value) -> J {
         Value::BigInt(n) => json!({"k": "bigint", "v": n.to_string()}),
         Value::BigUint(n) => json!({"k": "biguint", "v": n.to_string()}),
         Value::Text(t) => json!({"k": "text", "v": t.as_str()}),
-        Value::Data(b) => json!({"k": "data", "v": format!("{:?}", b.as_ref())}),
+        Value::Data(b) => json!({"k": "data", "v": b.clone().into_decoded().unwrap_or_default()}),
         Value::Record(attrs, items) => {
             let a: Vec<J> = attrs
                 .iter()
@@ -64,6 +65,10 @@ fn val_to_json(v: &Value) -> J {
     }
 }
 
+fn bytes_of(j: &J) -> Vec<u8> {
+    j.as_array().expect("bytes").iter().map(|b| b.as_u64().unwrap() as u8).collect()
+}
+
 fn json_to_val(j: &J) -> Value {
     match j["k"].as_str().expect("value kind") {
         "extant" => Value::Extant,
@@ -77,6 +82,9 @@ fn json_to_val(j: &J) -> Value {
         }),
         "bool" => Value::BooleanValue(j["v"].as_bool().unwrap()),
         "text" => Value::Text(Text::new(j["v"].as_str().unwrap())),
+        "bigint" => Value::BigInt(j["v"].as_str().unwrap().parse().unwrap()),
+        "biguint" => Value::BigUint(j["v"].as_str().unwrap().parse().unwrap()),
+        "data" => Value::Data(Blob::encode(bytes_of(&j["v"]))),
         "rec" => {
             let attrs = j["attrs"]
                 .as_array()
@@ -117,6 +125,115 @@ mod valjson {
         Ok(json_to_val(&j))
     }
 }
+
+// ------------------------------------------------------------------ typed values <-> json
+
+/// The json rendering of a typed value (its identity in the observation table) and its inverse.
+trait TJ: Sized {
+    fn tj_to(&self) -> J;
+    fn tj_from(j: &J) -> Result<Self, String>;
+    /// as the key of a json object
+    fn tj_key(&self) -> String {
+        match self.tj_to() {
+            J::String(s) => s,
+            o => serde_json::to_string(&o).unwrap(),
+        }
+    }
+    fn tj_from_key(k: &str) -> Result<Self, String> {
+        let j: J = serde_json::from_str(k).map_err(|e| e.to_string())?;
+        Self::tj_from(&j)
+    }
+}
+
+macro_rules! tj_serde {
+    ($($ty:ty),* $(,)?) => { $(
+        impl TJ for $ty {
+            fn tj_to(&self) -> J { serde_json::to_value(self).expect("serde") }
+            fn tj_from(j: &J) -> Result<Self, String> { serde_json::from_value(j.clone()).map_err(|e| e.to_string()) }
+        }
+    )* };
+}
+tj_serde!(i32, i64, u32, u64, usize, f64, bool);
+
+macro_rules! tj_string_like {
+    ($ty:ty, $to:expr, $from:expr) => {
+        impl TJ for $ty {
+            fn tj_to(&self) -> J { J::String($to(self)) }
+            fn tj_from(j: &J) -> Result<Self, String> { Self::tj_from_key(j.as_str().ok_or("string expected")?) }
+            fn tj_from_key(k: &str) -> Result<Self, String> { $from(k) }
+        }
+    };
+}
+tj_string_like!(String, |s: &String| s.clone(), |k: &str| Ok::<_, String>(k.to_string()));
+tj_string_like!(Text, |s: &Text| s.as_str().to_string(), |k: &str| Ok::<_, String>(Text::new(k)));
+tj_string_like!(BigInt, |s: &BigInt| s.to_string(), |k: &str| k.parse::<BigInt>().map_err(|e| e.to_string()));
+tj_string_like!(BigUint, |s: &BigUint| s.to_string(), |k: &str| k.parse::<BigUint>().map_err(|e| e.to_string()));
+
+impl TJ for Vec<u8> {
+    fn tj_to(&self) -> J { json!(self) }
+    fn tj_from(j: &J) -> Result<Self, String> { Ok(bytes_of(j)) }
+}
+impl TJ for Box<[u8]> {
+    fn tj_to(&self) -> J { json!(self.as_ref()) }
+    fn tj_from(j: &J) -> Result<Self, String> { Ok(bytes_of(j).into_boxed_slice()) }
+}
+impl TJ for () {
+    fn tj_to(&self) -> J { J::Null }
+    fn tj_from(_: &J) -> Result<Self, String> { Ok(()) }
+}
+impl TJ for Timestamp {
+    fn tj_to(&self) -> J { json!(self.micros()) }
+    fn tj_from(j: &J) -> Result<Self, String> {
+        use chrono::TimeZone;
+        let m = j.as_i64().ok_or("micros expected")?;
+        chrono::Utc.timestamp_micros(m).single().map(Timestamp::from).ok_or_else(|| "bad timestamp".to_string())
+    }
+}
+impl TJ for std::time::Duration {
+    fn tj_to(&self) -> J { json!({"secs": self.as_secs(), "nanos": self.subsec_nanos()}) }
+    fn tj_from(j: &J) -> Result<Self, String> {
+        Ok(std::time::Duration::new(j["secs"].as_u64().ok_or("secs")?, j["nanos"].as_u64().ok_or("nanos")? as u32))
+    }
+}
+impl<P: TJ> TJ for Arc<P> {
+    fn tj_to(&self) -> J { self.as_ref().tj_to() }
+    fn tj_from(j: &J) -> Result<Self, String> { P::tj_from(j).map(Arc::new) }
+}
+impl<P: TJ> TJ for Option<P> {
+    fn tj_to(&self) -> J { self.as_ref().map(|p| p.tj_to()).unwrap_or(J::Null) }
+    fn tj_from(j: &J) -> Result<Self, String> { if j.is_null() { Ok(None) } else { P::tj_from(j).map(Some) } }
+}
+impl<P: TJ> TJ for Vec<P> {
+    fn tj_to(&self) -> J { J::Array(self.iter().map(|p| p.tj_to()).collect()) }
+    fn tj_from(j: &J) -> Result<Self, String> { j.as_array().ok_or("array expected")?.iter().map(P::tj_from).collect() }
+}
+impl<A: TJ, B: TJ> TJ for (A, B) {
+    fn tj_to(&self) -> J { json!([self.0.tj_to(), self.1.tj_to()]) }
+    fn tj_from(j: &J) -> Result<Self, String> { Ok((A::tj_from(&j[0])?, B::tj_from(&j[1])?)) }
+}
+impl<K: TJ + Eq + Hash, V: TJ> TJ for HashMap<K, V> {
+    fn tj_to(&self) -> J { J::Object(self.iter().map(|(k, v)| (k.tj_key(), v.tj_to())).collect()) }
+    fn tj_from(j: &J) -> Result<Self, String> {
+        j.as_object().ok_or("object expected")?.iter().map(|(k, v)| Ok((K::tj_from_key(k)?, V::tj_from(v)?))).collect()
+    }
+}
+
+// the position battery: a field of every primitive kind P in every structural position
+macro_rules! pos_ty {
+    ($name:ident { $($(#[$m:meta])* $f:ident : $t:ty),* }) => {
+        #[derive(Form, Clone, Debug, PartialEq)]
+        struct $name<P> { $($(#[$m])* $f: $t),* }
+        impl<P: TJ> TJ for $name<P> {
+            fn tj_to(&self) -> J { json!({ $(stringify!($f): self.$f.tj_to()),* }) }
+            fn tj_from(j: &J) -> Result<Self, String> { Ok($name { $($f: <$t as TJ>::tj_from(&j[stringify!($f)])?),* }) }
+        }
+    };
+}
+pos_ty!(SlotP { v: P });
+pos_ty!(AttrP { #[form(attr)] a: P, x: i32 });
+pos_ty!(HdrP { #[form(header)] h: P, x: i32 });
+pos_ty!(HBodyP { #[form(header_body)] hb: P, x: i32 });
+pos_ty!(BodyP { n: i32, #[form(body)] b: P });
 
 // ------------------------------------------------------------------ the battery
 
@@ -230,11 +347,18 @@ form_ty! {
     struct CollHdr { xs: Vec<HdrBoth>, o: Option<HdrBoth> }
 }
 
+tj_serde!(
+    Unit, Simple, Two, Tup, Renamed, TupRen, WithAttr, TwoAttrs, HdrBody, HdrSlots, HdrOpt, AttrVec, AttrMap, HdrBoth, HdrVec,
+    HdrNest, BodyVec, BodyStr, BodyNest, Skippy, SkipTup, Opt, Coll, Gen<i32>, Gen<String>, Gen<Two>, Gen<Option<Two>>, Nested,
+    VecNest, NewT, NewS, TagField, Shape, Op<String, i32>, Op<i32, Two>, ConvStruct, ConvEnum, Nums, ModelVal, WithValue,
+    BodyValue, HdrValue, CollHdr
+);
+
 // ------------------------------------------------------------------ observations
 
-fn typed<T: Serialize, E: std::fmt::Display>(r: Result<T, E>) -> J {
+fn typed<T: TJ, E: std::fmt::Display>(r: Result<T, E>) -> J {
     match r {
-        Ok(v) => json!({"ok": true, "v": serde_json::to_value(&v).expect("serde")}),
+        Ok(v) => json!({"ok": true, "v": v.tj_to()}),
         Err(e) => json!({"ok": false, "err": e.to_string()}),
     }
 }
@@ -249,7 +373,7 @@ fn msgpack_of<W: StructuralWritable>(w: &W) -> Result<BytesMut, String> {
     Ok(buffer)
 }
 
-fn read_paths<T: Form + Serialize>(s: &str, want_val: bool) -> J {
+fn read_paths<T: Form + TJ>(s: &str, want_val: bool) -> J {
     let direct = parse_recognize::<T>(s, false);
     let pv = parse_recognize::<Value>(s, false);
     let mut o = json!({ "direct": typed(direct) });
@@ -295,7 +419,7 @@ fn decode_frame<D: Decoder>(dec: &mut D, text: &str) -> Result<Option<D::Item>, 
     last
 }
 
-fn run_seq<T: Form + Serialize>(case: &J) -> J {
+fn run_seq<T: Form + TJ>(case: &J) -> J {
     let texts: Vec<&str> = case["texts"].as_array().expect("texts").iter().map(|t| t.as_str().unwrap()).collect();
     let mut direct = WithLenRecognizerDecoder::new(T::make_recognizer());
     let mut model = WithLenRecognizerDecoder::new(Value::make_recognizer());
@@ -327,15 +451,15 @@ fn run_seq<T: Form + Serialize>(case: &J) -> J {
     json!({ "frames": frames })
 }
 
-fn run<T: Form + Serialize + DeserializeOwned + Clone>(case: &J) -> J {
+fn run<T: Form + TJ + Clone>(case: &J) -> J {
     match case["op"].as_str().unwrap_or("doc") {
         "seq" => run_seq::<T>(case),
         "inst" => {
-            let x: T = match serde_json::from_value(case["x"].clone()) {
+            let x: T = match T::tj_from(&case["x"]) {
                 Ok(x) => x,
                 Err(e) => return json!({"tool_error": format!("instance does not deserialize: {}", e)}),
             };
-            let xj = serde_json::to_value(&x).expect("serde");
+            let xj = x.tj_to();
             let asv = x.as_value();
             let intov = x.clone().into_value();
             let mut o = json!({
@@ -393,7 +517,8 @@ fn run<T: Form + Serialize + DeserializeOwned + Clone>(case: &J) -> J {
                 // the abstract document built directly as a model value (no text involved)
                 let v = json_to_val(b);
                 o["built"] = typed(T::try_from_value(&v));
-                o["built_is_parsed"] = json!(o.get("val").map(|p| *p == val_to_json(&v)).unwrap_or(false));
+                // (model equality: the numeric kind the parser chooses for a literal does not matter)
+                o["built_is_parsed"] = json!(parse_recognize::<Value>(s, false).map(|p| p == v).unwrap_or(false));
                 if !want_val {
                     o.as_object_mut().unwrap().remove("val");
                 }
@@ -434,14 +559,65 @@ battery! {
     "VecHdrOpt" => Vec<HdrOpt>, "VecWithAttr" => Vec<WithAttr>, "VecTwoAttrs" => Vec<TwoAttrs>, "VecBodyNest" => Vec<BodyNest>,
     "VecBodyStr" => Vec<BodyStr>, "VecShape" => Vec<Shape>, "VecOpSI" => Vec<Op<String, i32>>, "VecTagField" => Vec<TagField>,
     "VecTup" => Vec<Tup>, "VecOpt" => Vec<Opt>, "MapShape" => HashMap<String, Shape>,
-    "VecAttrVec" => Vec<AttrVec>, "VecAttrMap" => Vec<AttrMap>,
+    "VecAttrVec" => Vec<AttrVec>, "VecAttrMap" => Vec<AttrMap>, "Duration" => std::time::Duration,
+}
+
+/// "<position>_<kind>": the position battery
+fn run_pos<P: Form + TJ + Clone>(pos: &str, case: &J) -> J {
+    match pos {
+        "Plain" => run::<P>(case),
+        "Slot" => run::<SlotP<P>>(case),
+        "Attr" => run::<AttrP<P>>(case),
+        "Hdr" => run::<HdrP<P>>(case),
+        "HBody" => run::<HBodyP<P>>(case),
+        "Body" => run::<BodyP<P>>(case),
+        "Vec" => run::<Vec<P>>(case),
+        "Opt" => run::<Option<P>>(case),
+        "MapVal" => run::<HashMap<String, P>>(case),
+        _ => json!({"tool_error": format!("unknown position {}", pos)}),
+    }
+}
+
+fn run_key<P: Form + TJ + Clone + Eq + Hash>(pos: &str, case: &J) -> J {
+    if pos == "MapKey" {
+        run::<HashMap<P, i32>>(case)
+    } else {
+        run_pos::<P>(pos, case)
+    }
+}
+
+fn dispatch_pos(pos: &str, kind: &str, case: &J) -> J {
+    match kind {
+        "i32" => run_key::<i32>(pos, case),
+        "i64" => run_key::<i64>(pos, case),
+        "u32" => run_key::<u32>(pos, case),
+        "u64" => run_key::<u64>(pos, case),
+        "usize" => run_key::<usize>(pos, case),
+        "f64" => run_pos::<f64>(pos, case),
+        "bool" => run_key::<bool>(pos, case),
+        "string" => run_key::<String>(pos, case),
+        "text" => run_key::<Text>(pos, case),
+        "bigint" => run_key::<BigInt>(pos, case),
+        "biguint" => run_key::<BigUint>(pos, case),
+        "blob" => run_key::<Vec<u8>>(pos, case),
+        "boxblob" => run_key::<Box<[u8]>>(pos, case),
+        "unit" => run_key::<()>(pos, case),
+        "timestamp" => run_pos::<Timestamp>(pos, case),
+        "arc" => run_pos::<Arc<i32>>(pos, case),
+        "duration" => run_pos::<std::time::Duration>(pos, case),
+        _ => json!({"tool_error": format!("unknown kind {}", kind)}),
+    }
 }
 
 fn run_case(case: &J) -> J {
     if case["op"] == "types" {
         return json!({ "types": TYPES });
     }
-    dispatch(case["ty"].as_str().expect("ty"), case)
+    let ty = case["ty"].as_str().expect("ty");
+    if let Some((pos, kind)) = ty.split_once('_') {
+        return dispatch_pos(pos, kind, case);
+    }
+    dispatch(ty, case)
 }
 
 fn main() {
